@@ -329,4 +329,21 @@ def intendedBody (d : RespIn) : Bytes :=
   else if 400 ≤ d.status && d.status < 600 && errdocApplies d then errorPage d.status
   else d.queued ++ (if d.finished then [] else d.pieces.flatten)
 
+/-- the domain of the framing property: what a well-behaved handler hands to the response path.
+    (Backend responses that violate these are the subject of C10; protocol upgrades and CONNECT
+    tunnels have no message body in the sense of RFC 9112 §6.3.) -/
+structure HandlerSane (d : RespIn) : Prop where
+  /-- a final response (interim 1xx responses go through `send1xx`) -/
+  status : 200 ≤ d.status
+  /-- the handler does not apply a transfer coding of its own -/
+  noTE : Hdrs.has d.hdrs nTransferEncoding = false
+  noUpgrade : Hdrs.has d.hdrs nUpgrade = false
+  notTunnel : ¬ (d.meth = .connect ∧ d.status = 200)
+  /-- a Content-Length the handler sets itself is the length of the body it produces -/
+  declared : d.meth ≠ .head → isBodiless d.status = false → ∀ v, Hdrs.get d.hdrs nContentLength = some v →
+      v.isEmpty = false → v = natToDec (d.queued ++ (if d.finished then [] else d.pieces.flatten)).length
+  /-- a streamed body is ended with http_chunk_close() (aborted streams: C10) -/
+  closes : d.closeNormally = true
+  sizes : chunkSizeOk d.queued.length ∧ ∀ p ∈ d.pieces, chunkSizeOk p.length
+
 end LtVerif
